@@ -77,17 +77,15 @@ func canonNode(b *strings.Builder, n *inspect.Node) {
 	b.WriteString("</>")
 }
 
+// textSignificant: character data is content (kept verbatim, whitespace
+// included) only inside the text-bearing elements; elsewhere whitespace-only
+// text is layout and non-blank text is compared as it is.
 func textSignificant(parent *inspect.Node) bool {
 	switch parent.Local {
 	case "t", "instrText", "delText", "lvlText":
 		return true
 	}
-	for _, k := range parent.Kids {
-		if k.Local != "" {
-			return false
-		}
-	}
-	return true
+	return false
 }
 
 // CanonXML is the canonical string of an XML part ("" + error text if it does not parse).
@@ -320,6 +318,170 @@ func contentKids(n *inspect.Node, sig bool) []*inspect.Node {
 			continue
 		}
 		out = append(out, k)
+	}
+	return out
+}
+
+// TreeDiffAll returns every difference between two trees as
+// (signature path, detail) pairs: attributes lost/added/changed, child elements
+// lost/added (aligned by longest common subsequence over element names and,
+// for text-bearing elements, their text), text changes. A lost or added
+// subtree is reported once, at its root.
+func TreeDiffAll(a, b *inspect.Node) [][2]string {
+	var out [][2]string
+	seen := map[string]bool{}
+	treeDiffAll(a, b, "", &out, seen)
+	return out
+}
+
+func alignKey(n *inspect.Node) string {
+	if n.Local == "" {
+		return "#text"
+	}
+	switch n.Local {
+	case "p", "r", "tc", "tr", "t":
+		return n.Name() + "\x00" + inspect.Hash(n.InnerText())
+	}
+	return n.Name()
+}
+
+func treeDiffAll(a, b *inspect.Node, at string, out *[][2]string, seen map[string]bool) {
+	add := func(sig, det string) {
+		if !seen[sig] {
+			seen[sig] = true
+			*out = append(*out, [2]string{sig, det})
+		}
+	}
+	an, bn := a.Name(), b.Name()
+	if an != bn {
+		add(at+"/"+an+":renamed", fmt.Sprintf("element %s vs %s under %s", an, bn, at))
+		return
+	}
+	p := at + "/" + an
+	aa, ba := attrsOf(a), attrsOf(b)
+	for _, k := range sortedKeysS(aa) {
+		v2, ok := ba[k]
+		if !ok {
+			add(p+"@"+k+":lost", fmt.Sprintf("%s: attribute %s=%q only in the first", p, k, clip(aa[k])))
+		} else if v2 != aa[k] {
+			add(p+"@"+k+":changed", fmt.Sprintf("%s: attribute %s is %q vs %q", p, k, clip(aa[k]), clip(v2)))
+		}
+	}
+	for _, k := range sortedKeysS(ba) {
+		if _, ok := aa[k]; !ok {
+			add(p+"@"+k+":added", fmt.Sprintf("%s: attribute %s=%q only in the second", p, k, clip(ba[k])))
+		}
+	}
+	if maskedText[an] {
+		return
+	}
+	if setContainers[an] {
+		if s, d := treeDiff(a, b, at); s != "" {
+			add(s, d)
+		}
+		return
+	}
+	sig := textSignificant(a) || textSignificant(b)
+	ka, kb := contentKids(a, sig), contentKids(b, sig)
+	// LCS alignment; first try exact keys (name + text), fall back to names
+	match := lcsAlign(ka, kb, alignKey)
+	ia, ib := 0, 0
+	emitLost := func(x *inspect.Node) {
+		add(p+"/"+kidName(x)+":lost", fmt.Sprintf("%s: child %s only in the first: %s", p, kidName(x), clip(x.InnerText()+x.Text)))
+	}
+	emitAdded := func(x *inspect.Node) {
+		add(p+"/"+kidName(x)+":added", fmt.Sprintf("%s: child %s only in the second: %s", p, kidName(x), clip(x.InnerText()+x.Text)))
+	}
+	flush := func(ea, eb int) {
+		// unmatched stretches: pair up same-named elements in order (changed), the rest is lost/added
+		ua, ub := ka[ia:ea], kb[ib:eb]
+		used := make([]bool, len(ub))
+		for _, x := range ua {
+			paired := false
+			for j, y := range ub {
+				if !used[j] && kidName(x) == kidName(y) {
+					used[j] = true
+					paired = true
+					if x.Local == "" {
+						if x.Text != y.Text {
+							add(p+":text", fmt.Sprintf("%s: text %q vs %q", p, clip(x.Text), clip(y.Text)))
+						}
+					} else {
+						treeDiffAll(x, y, p, out, seen)
+					}
+					break
+				}
+			}
+			if !paired {
+				emitLost(x)
+			}
+		}
+		for j, y := range ub {
+			if !used[j] {
+				emitAdded(y)
+			}
+		}
+	}
+	for _, m := range match {
+		flush(m[0], m[1])
+		x, y := ka[m[0]], kb[m[1]]
+		if x.Local != "" {
+			treeDiffAll(x, y, p, out, seen)
+		}
+		ia, ib = m[0]+1, m[1]+1
+	}
+	flush(len(ka), len(kb))
+}
+
+// lcsAlign returns index pairs of a longest common subsequence under key.
+func lcsAlign(a, b []*inspect.Node, key func(*inspect.Node) string) [][2]int {
+	n, m := len(a), len(b)
+	if n == 0 || m == 0 {
+		return nil
+	}
+	if n*m > 4_000_000 { // very long child lists: align positionally
+		var out [][2]int
+		for i := 0; i < n && i < m; i++ {
+			if key(a[i]) == key(b[i]) {
+				out = append(out, [2]int{i, i})
+			}
+		}
+		return out
+	}
+	ka, kb := make([]string, n), make([]string, m)
+	for i := range a {
+		ka[i] = key(a[i])
+	}
+	for j := range b {
+		kb[j] = key(b[j])
+	}
+	dp := make([][]int32, n+1)
+	for i := range dp {
+		dp[i] = make([]int32, m+1)
+	}
+	for i := n - 1; i >= 0; i-- {
+		for j := m - 1; j >= 0; j-- {
+			if ka[i] == kb[j] {
+				dp[i][j] = dp[i+1][j+1] + 1
+			} else if dp[i+1][j] >= dp[i][j+1] {
+				dp[i][j] = dp[i+1][j]
+			} else {
+				dp[i][j] = dp[i][j+1]
+			}
+		}
+	}
+	var out [][2]int
+	for i, j := 0, 0; i < n && j < m; {
+		switch {
+		case ka[i] == kb[j]:
+			out = append(out, [2]int{i, j})
+			i++
+			j++
+		case dp[i+1][j] >= dp[i][j+1]:
+			i++
+		default:
+			j++
+		}
 	}
 	return out
 }
